@@ -55,3 +55,17 @@ package labelmap
 //@   assert at "if err := idx.ModifyBlocks(label, delta); err != nil {": heldw("indexMu[shard]") && lockepoch("indexMu[shard]") == ep
 //@   assert at "return putCachedLabelIndex(d, v, idx)": heldw("indexMu[shard]") && lockepoch("indexMu[shard]") == ep
 //@   assert at "return deleteCachedLabelIndex(d, v, label)": heldw("indexMu[shard]") && lockepoch("indexMu[shard]") == ep
+
+// MergeLabels: the target's stored index is (re-)read, extended and written back inside one critical
+// section of its shard mutex.
+//@ func Data.MergeLabels
+//@   prop C11 C08
+//@   requires d != nil
+//@   safety_off
+//@   calls_havoc
+//@   modifies *
+//@   ghost ep int = 0
+//@   ghostset at "if targetIdx, err = getCachedLabelIndex(d, v, op.Target); err == nil {": ep = lockepoch("indexMu[shard]")
+//@   assert at "if targetIdx, err = getCachedLabelIndex(d, v, op.Target); err == nil {": heldw("indexMu[shard]")
+//@   assert at "else if err = targetIdx.Add(mergeIdx, mutInfo); err == nil {": heldw("indexMu[shard]") && lockepoch("indexMu[shard]") == ep
+//@   assert at "err = putCachedLabelIndex(d, v, targetIdx)": heldw("indexMu[shard]") && lockepoch("indexMu[shard]") == ep
